@@ -619,15 +619,11 @@ func d18ParseResp(b []byte) (int, []string) {
 // synchronisation
 
 // textQueued: the lock request a text connection is waiting for is still in the key's wait queue.
+// Only state that the handler goroutine published under the key's mutex is read (the Lock object and
+// the proxy it was created with); stream.protocol itself is written by the handler without
+// synchronisation while the connection starts up.
 func (e *d18Env) textQueued(p *d18Peer) bool {
-	if p.proto == nil {
-		// the protocol object comes into being with the first read
-		if sp := p.stream.protocol; sp != nil {
-			p.proto = sp
-		}
-	}
-	tp, ok := p.proto.(*TextServerProtocol)
-	if !ok || tp == nil || p.pending == nil {
+	if p.pending == nil {
 		return false
 	}
 	probe := &protocol.LockCommand{LockKey: d18Key(p.pending.Key)}
@@ -642,10 +638,10 @@ func (e *d18Env) textQueued(p *d18Peer) bool {
 	}
 	for _, n := range m.waitLocks.IterNodes() {
 		for _, l := range n {
-			if l == nil || l.timeouted || l.command == nil || l.locked > 0 {
+			if l == nil || l.timeouted || l.command == nil || l.locked > 0 || l.protocol == nil {
 				continue
 			}
-			if len(tp.proxys) > 0 && l.protocol == tp.proxys[0] {
+			if tp, ok := l.protocol.serverProtocol.(*TextServerProtocol); ok && tp != nil && tp.stream == p.stream {
 				return true
 			}
 		}
@@ -966,6 +962,139 @@ func (e *d18Env) ownedBy(p *d18Peer) (queued, held int) {
 	d.mGlock.RUnlock()
 	return
 }
+
+// deadQueued lists the queued requests (request index -> sending connection) that were sent by a binary
+// connection which has ended and had announced a client id.
+func (e *d18Env) deadQueued() map[int]int {
+	out := map[int]int{}
+	d := e.db
+	for i := uint16(0); i < d.managerMaxGlocks; i++ {
+		d.managerGlocks[i].Lock()
+	}
+	defer func() {
+		for i := uint16(0); i < d.managerMaxGlocks; i++ {
+			d.managerGlocks[i].Unlock()
+		}
+	}()
+	visit := func(m *LockManager) {
+		if m.waitLocks == nil {
+			return
+		}
+		for _, n := range m.waitLocks.IterNodes() {
+			for _, l := range n {
+				if l == nil || l.timeouted || l.command == nil || l.locked > 0 {
+					continue
+				}
+				r := d18ReqIdx(l.command.RequestId)
+				if r < 0 || r >= len(e.sent) {
+					continue
+				}
+				if q, ok := e.peers[e.sent[r].Conn]; ok && q.dead && !q.text && q.cid >= 0 {
+					out[r] = q.idx
+				}
+			}
+		}
+	}
+	seenM := map[*LockManager]bool{}
+	for i := range d.fastLocks {
+		fv := &d.fastLocks[i]
+		if fv.lock == 2 && fv.manager != nil && fv.manager.refCount != 0xffffffff && !seenM[fv.manager] {
+			seenM[fv.manager] = true
+			visit(fv.manager)
+		}
+	}
+	d.mGlock.RLock()
+	for _, m := range d.locks {
+		if m.refCount != 0xffffffff && !seenM[m] {
+			seenM[m] = true
+			visit(m)
+		}
+	}
+	d.mGlock.RUnlock()
+	return out
+}
+
+// registered returns the live connection that is entered in slock.clients under the client id, or nil.
+func (e *d18Env) registered(cid int) *d18Peer {
+	e.inst.slock.clientsGlock.Lock()
+	sp, ok := e.inst.slock.clients[d18ClientId(cid)]
+	e.inst.slock.clientsGlock.Unlock()
+	if !ok || sp == nil {
+		return nil
+	}
+	for _, i := range e.order {
+		p := e.peers[i]
+		if p.opened && !p.dead && !p.closing && p.proto != nil && p.proto == sp {
+			return p
+		}
+	}
+	return nil
+}
+
+type d18LateWatch struct {
+	queued map[int]int
+	reg    map[int]*d18Peer
+}
+
+func (e *d18Env) lateBefore() *d18LateWatch {
+	w := &d18LateWatch{queued: e.deadQueued(), reg: map[int]*d18Peer{}}
+	for _, owner := range w.queued {
+		cid := e.peers[owner].cid
+		if _, ok := w.reg[cid]; !ok {
+			w.reg[cid] = e.registered(cid)
+		}
+	}
+	return w
+}
+
+// lateAfter: a queued request of a dead connection ended during the step while one and the same live
+// connection was registered under the dead connection's client id: the terminal reply must have arrived
+// there ("delivered to that connection").
+func (e *d18Env) lateAfter(w *d18LateWatch) {
+	if len(w.queued) == 0 {
+		return
+	}
+	now := e.deadQueued()
+	var reqs []int
+	for r := range w.queued {
+		if _, still := now[r]; !still {
+			reqs = append(reqs, r)
+		}
+	}
+	sort.Ints(reqs)
+	for _, r := range reqs {
+		owner := e.peers[w.queued[r]]
+		s := w.reg[owner.cid]
+		if s == nil || s != e.registered(owner.cid) {
+			e.info.LateDropped++
+			e.info.Classes["late-reply-dropped-no-successor"] = true
+			continue
+		}
+		// any connection that announced this client id will do: a proxy that was re-bound to an earlier
+		// successor keeps delivering there while that one lives
+		got := false
+		for _, i := range e.order {
+			q := e.peers[i]
+			if q == owner || q.cid != owner.cid {
+				continue
+			}
+			for _, f := range q.frames {
+				if f.Req == r {
+					got = true
+				}
+			}
+		}
+		if !got && d18StrictSuccessor {
+			e.fail("C18:late-reply:lost-although-successor-connected", "request #%d (%v) of the dead connection c%d (client id %d) ended while connection c%d was registered under the same client id, but no reply for it arrived on any connection that announced this id",
+				r, e.sent[r].Cmd, owner.idx, owner.cid, s.idx)
+		}
+	}
+}
+
+// d18StrictSuccessor: read "dropped - or, if a client that announced the same client id has reconnected,
+// delivered to that connection" as: with a registered successor the reply is delivered. VERIF_C18_LENIENT=1
+// accepts a silent drop in that situation as well.
+var d18StrictSuccessor = os.Getenv("VERIF_C18_LENIENT") == ""
 
 // ---------------------------------------------------------------------------------------------
 // steps
@@ -1489,6 +1618,7 @@ func d18Execute(c *d18Case, opts d18Opts) (run *d18Run, err error) {
 	e.settle()
 	for i, st := range c.Steps {
 		e.logf("step %d: %s", i, st.String())
+		watch := e.lateBefore()
 		switch st.K {
 		case "open":
 			e.stepOpen(st)
@@ -1500,6 +1630,9 @@ func d18Execute(c *d18Case, opts d18Opts) (run *d18Run, err error) {
 			e.stepTick(st.N)
 		}
 		e.info.Steps++
+		if e.viol == nil && !e.info.NeedChild {
+			e.lateAfter(watch)
+		}
 		if e.viol != nil || e.info.NeedChild {
 			return run, nil
 		}
@@ -1508,13 +1641,6 @@ func d18Execute(c *d18Case, opts d18Opts) (run *d18Run, err error) {
 	e.drain()
 	if e.viol == nil && !e.info.NeedChild {
 		run.Snaps = append(run.Snaps, e.snapshot().str)
-		// everything the dead connections left queued has ended; count those that ended silently
-		for _, i := range e.order {
-			p := e.peers[i]
-			if p.queuedAtClose > 0 {
-				e.info.LateDropped += p.queuedAtClose
-			}
-		}
 	}
 	return run, nil
 }
